@@ -182,6 +182,33 @@ func scripted(prop string) []script {
 		{Kind: "Observe", H: 503},
 		{Kind: "Observe", H: 504},
 	}})
+	// (5) time-outs are not monotone in the batch nonce: batch 1 is requested three blocks after the last event (projection
+	// runs ahead: T1 = 1000+3*70+600 = 1810), an event at 1001 resets the projection, the more profitable batch 2 gets
+	// T2 = 1001+70+600 = 1671; the event at 1700 may release batch 2 only; batch 1 must still be executable at 1750
+	out = append(out, script{[4]uint64{60000, 7000, 100, 3_600_001}, 100000, []Op{
+		{Kind: "Observe", H: 1000},
+		{Kind: "Send", Sender: 0, Dest: 1, Amount: 10, Fee: 5, Token: 1},
+		{Kind: "NextBlock"}, {Kind: "NextBlock"}, {Kind: "NextBlock"},
+		{Kind: "RequestBatch", Token: 1, Which: 1, FeeRcv: 0, MinFee: 1, Auth: true},
+		{Kind: "Observe", H: 1001},
+		{Kind: "Send", Sender: 1, Dest: 2, Amount: 20, Fee: 9, Token: 1},
+		{Kind: "NextBlock"},
+		{Kind: "RequestBatch", Token: 1, Which: 1, FeeRcv: 1, MinFee: 1, Auth: true},
+		{Kind: "Observe", H: 1700},
+		{Kind: "Cancel", ID: 1, Who: 0},
+		{Kind: "BatchExecuted", Token: 1, Nonce: 1, H: 1750},
+	}})
+	// (6) one of three oracles reports the event with another height (here: far beyond every time-out, as the
+	// threshold-crossing second voter): the observed height must be the one the other two agree on
+	out = append(out, script{paramSets[2], 100000, []Op{
+		{Kind: "Observe", H: 1000},
+		{Kind: "Send", Sender: 0, Dest: 1, Amount: 10, Fee: 5, Token: 0},
+		{Kind: "RequestBatch", Token: 0, Which: 1, FeeRcv: 0, MinFee: 1, Auth: true},
+		{Kind: "BridgeCall", Sender: 0, Refund: 1, Coins: [][2]int64{{0, 50}}, To: 2, Data: []byte{1}},
+		{Kind: "Observe", H: 1000, Dissent: 900000, DissentBy: 1},
+		{Kind: "Observe", H: 1001, Dissent: 900000, DissentBy: 0},
+		{Kind: "Observe", H: 1001, Dissent: 900000, DissentBy: 2},
+	}})
 	// (4) more than 100 entries of one token: the batch takes the 100 best, ties by descending id
 	var big []Op
 	big = append(big, Op{Kind: "Observe", H: 77})
